@@ -39,7 +39,8 @@ PLAUSIBLE = {
 INTERRUPTIBLE = {"read", "write", "open", "waitpid", "close", "dup2", "poll"}
 NOT_FAULTED = {"free", "_exit", "clock_gettime", "other"}
 
-PRELUDE = "rlimit 64 ; faults1 ; ENV 6 %d ; MASK %x ; SIGACT 10 %d ; SIGACT 12 %d ; SIGACT 2 %d"
+PRELUDE = "rlimit 64 ; faults1 ; ENV 6 %d ; MASK %x ; SIGACT %d %d ; SIGACT %d %d ; SIGACT %d %d"
+SIGS_OK = [1, 2, 3, 5, 6, 10, 12, 13, 14, 15, 16, 20, 21, 22, 23, 24, 25, 26, 27, 28, 29, 30, 31]
 TAIL = "P 0 ; %s ; P 0 ; T 0 ; K 0 ; W 0 -1 ; T 0 ; K 0 ; D 0"
 
 _sites_cache = {}
@@ -51,7 +52,10 @@ TAIL_FAILAGAIN = "P 0 ; %s ; P 0 ; D 0"
 
 def script_for(name, opts, faults, r, natural=False, tail=0):
     mask = r.choice([0, 0x4002, 0x7fffbeff & ~(1 << 8), 0x200])  # never block SIGKILL/SIGSTOP bits needlessly
-    pre = PRELUDE % (r.randrange(1000), mask, r.randrange(3), r.randrange(3), r.randrange(3))
+    sg = r.sample(SIGS_OK, 3)
+    pre = PRELUDE % (r.randrange(1000), mask, sg[0], r.randrange(3), sg[1], r.randrange(3), sg[2], 1 + r.randrange(2))
+    if r.random() < 0.1:
+        pre += " ; " + " ; ".join("SIGACT %d %d" % (s_, 1 + r.randrange(2)) for s_ in SIGS_OK)
     ftok = " ; ".join("F %d %s %d %d" % f for f in faults)
     o = dict(opts)
     o["ident"] = 1
